@@ -59,6 +59,10 @@ def gen(ctx):
         elif kind == "outage":
             # the cluster becomes unreachable and stays so: every later request (and every call of the driver's own client) fails
             sc["outage_from"] = rng.choice([0.0, 1.125, 1.5, 2.25, 3.0, 5.0])
+        # the class of the injected exception must not matter (time-outs, OS errors, Rally's own errors, …)
+        from harness import sim_race as _sr
+
+        sc["fault_exc"] = rng.choice(_sr.FAULT_CLASSES) if rng.random() < 0.6 else "RuntimeError"
         # configuration that changes what the actors do on start-up and shut-down
         sc["api_keys"] = rng.random() < 0.4
         sc["faults"] = {repr(k): v for k, v in faults.items()}
